@@ -211,6 +211,7 @@ void deterministic(Run& run, const std::function<void(const std::vector<uint8_t>
 			size_t firstBad = runBatchIsolated(n, [&](size_t k) { return childBody(b.substr(0, mine[at + k]), (at + k) % 5 != 0); }, 20);
 			for (size_t k = 0; k < firstBad && k < n; k++) {
 				run.evaluations++;
+				run.bulkEnumerated++;
 				run.cls((at + k) % 5 != 0 ? "cut:enumerated(batched, load+query+copy+raw save)" : "cut:enumerated(batched, + default save)");
 				run.cls("kind:corpus");
 				if (mine[at + k] > 0)
@@ -236,7 +237,7 @@ int main(int argc, char** argv) {
 	h.deterministic = deterministic;
 	h.maxTape = 2000;
 	h.quickCases = 4000;
-	h.thoroughCases = 300000;
+	h.thoroughCases = 60000;
 	h.rule = "fault = truncation of a valid file at a byte offset. Enumerated on the 26 samples: every offset of small files, "
 			 "the whole header, +-8 bytes around every block boundary, the first bytes of every block and a stride through "
 			 "the payloads; random: arbitrary / header / boundary / block-head cuts of samples and synthesised files. Each "
